@@ -85,7 +85,7 @@ struct Op
 struct Case
 {
     std::string prop = "c06";
-    int elem = 0; // 0 Tracked, 1 MoTracked
+    int elem = 0; // 0 Tracked, 1 MoTracked, 2 NxTracked (all special members noexcept)
     std::vector<Op> ops;
 
     template <class A>
@@ -105,7 +105,7 @@ const char* property_ids()
 std::string describe(const Case& c)
 {
     std::ostringstream o;
-    o << c.prop << " fixed_vector<" << (c.elem ? "MoTracked" : "Tracked") << ">:";
+    o << c.prop << " fixed_vector<" << (c.elem == 1 ? "MoTracked" : c.elem == 2 ? "NxTracked" : "Tracked") << ">:";
     for (auto& op : c.ops)
     {
         o << " " << code_name(op.code) << "(s" << op.a;
@@ -246,6 +246,8 @@ Case generate(vf::Src& src, const std::string& mode)
     }
 
     c.elem = is07 ? (src.coin(25) ? 1 : 0) : (src.coin(40) ? 1 : 0);
+    if (c.elem == 0 && src.coin(25))
+        c.elem = 2;
     int n = src.irange(1, 30);
     bool faults = !is07 && src.coin(25);
     for (int i = 0; i < n; ++i)
@@ -1002,6 +1004,16 @@ bool Runner<T>::step(const Op& op0, std::size_t index)
             }
             else
                 pos = pos % (sz + 3);
+            if (!c07 && op.b >= 100)
+            {
+                // now and then an index with the top bit set (the result of a failed search, say)
+                static const std::size_t extreme[] = { static_cast<std::size_t>(-1),
+                                                       static_cast<std::size_t>(1) << 63,
+                                                       (static_cast<std::size_t>(1) << 63) + 1,
+                                                       static_cast<std::size_t>(-1) / 2 + 2 };
+                pos = extreme[static_cast<std::size_t>(op.b) % 4];
+                ctx.tag("at:extreme-index");
+            }
             expect_raise = pos >= sz;
             const FV& cf = *slot[a];
             // the two overloads are checked independently: one raising must not hide the other
@@ -1335,10 +1347,17 @@ std::string check(const Case& c, vf::Ctx& ctx)
     tr::reg().reset();
     bool is07 = c.prop == "c07";
     ctx.tag("prop:" + c.prop);
-    ctx.tag(c.elem ? "elem:move-only" : "elem:copyable");
+    ctx.tag(c.elem == 1 ? "elem:move-only" : c.elem == 2 ? "elem:copyable-noexcept" : "elem:copyable");
     std::string msg;
     bool boundary, interesting;
-    if (c.elem)
+    if (c.elem == 2)
+    {
+        Runner<tr::NxTracked> r(ctx, is07);
+        msg = r.run(c);
+        boundary = r.boundary;
+        interesting = r.interesting07;
+    }
+    else if (c.elem)
     {
         Runner<tr::MoTracked> r(ctx, is07);
         msg = r.run(c);
